@@ -406,9 +406,85 @@ def redeclare_pass(ctx):
             return
 
 
+def loaded_pass(ctx):
+    """collections as a *load* leaves them: many-to-many references whose two ends are written in different orders (so that
+    a loader has to put one of them back into document order), XMI and JSON: iteration order, `index`, item access and
+    membership agree, and `remove(x)` takes out x"""
+    import os, shutil, tempfile
+    from pyecore import ecore as E
+    from pyecore.resources import ResourceSet, URI
+    from pyecore.resources.json import JsonResource
+    tmp = tempfile.mkdtemp(prefix='verif_c04_')
+    try:
+        for k in range(16 if ctx.quick() else 200):
+            rng = common.sub_rng(ctx.seed, 'C04', 'loaded', k)
+            fmt = 'xmi' if k % 2 == 0 else 'json'
+            pk = E.EPackage('lib', f'http://verif/c04/lib{k}', 'lib')
+            Lib, Author, Book = E.EClass('Lib'), E.EClass('Author'), E.EClass('Book')
+            pk.eClassifiers.extend([Lib, Author, Book])
+            for c in (Author, Book):
+                c.eStructuralFeatures.append(E.EAttribute('name', E.EString))
+            books = E.EReference('books', Book, upper=-1)
+            authors = E.EReference('authors', Author, upper=-1, eOpposite=books)
+            Author.eStructuralFeatures.append(books); Book.eStructuralFeatures.append(authors)
+            Lib.eStructuralFeatures.extend([E.EReference('as_', Author, upper=-1, containment=True),
+                                            E.EReference('bs', Book, upper=-1, containment=True)])
+            lib = Lib()
+            As = [Author(name=f'a{i}') for i in range(rng.randint(2, 4))]
+            Bs = [Book(name=f'b{i}') for i in range(rng.randint(2, 4))]
+            lib.as_.extend(As); lib.bs.extend(Bs)
+            for b in Bs:
+                for a in rng.sample(As, rng.randint(1, len(As))):
+                    b.authors.append(a)
+
+            def rs():
+                r = ResourceSet()
+                r.resource_factory['json'] = lambda uri: JsonResource(uri)
+                r.metamodel_registry[pk.nsURI] = pk
+                return r
+            path = os.path.join(tmp, f'lib{k}.{fmt}')
+            res = rs().create_resource(URI(path))
+            res.append(lib)
+            try:
+                res.save()
+                back = rs().get_resource(URI(path)).contents[0]
+            except Exception as e:
+                ctx.count('loaded/setup-raised/' + type(e).__name__)
+                continue
+            ctx.evaluations += 1
+            ctx.count('loaded/' + fmt)
+            ctx.nontriv(('loaded', k))
+            problem = None
+            for o in list(back.as_) + list(back.bs):
+                c = o.books if o.eClass is Author else o.authors
+                items = list(c)
+                for i, x in enumerate(items):
+                    try:
+                        if c.index(x) != i or c[i] is not x or x not in c:
+                            problem = f'{o.name}: element {i} of {len(items)}: index() gives {c.index(x)}, c[{i}] is it: {c[i] is x}, in: {x in c}'
+                    except Exception as e:
+                        problem = f'{o.name}: element {i}: {type(e).__name__}'
+                    if problem:
+                        break
+                if not problem and items:
+                    x = rng.choice(items)
+                    c.remove(x)
+                    if [v for v in c] != [v for v in items if v is not x]:
+                        problem = f'{o.name}: remove(element {items.index(x)}) left {[v.name for v in c]} of {[v.name for v in items]}'
+                if problem:
+                    break
+            if problem:
+                ctx.violate({'clause': 'index-position', 'op': 'load', 'unique': True, 'ordered': True, 'loaded': fmt},
+                            f'after a {fmt} load: {problem}', {'loaded': k, 'format': fmt})
+                return
+    finally:
+        shutil.rmtree(tmp, ignore_errors=True)
+
+
 def run(ctx):
     common.use_repo()
     proxy_back_pass(ctx)
+    loaded_pass(ctx)
     redeclare_pass(ctx)
     rng = common.sub_rng(ctx.seed, 'C04')
     cases = build_cases(ctx, rng)
